@@ -64,6 +64,12 @@ def judge(case):
             v3, e3 = cross_model(setup, case, tr, prog="poly3" if abs(setup.t0 - 318.15) > 1 else "exp3")
             v.extend(v3)
             extra += e3
+    # recycled caller objects (a decoy run with a programme of another type, another membrane state ...; then every caller-owned
+    # object is set in place to this case): the temperatures and heats must be those of the fresh-object run
+    if not v and setup.steps == 3:
+        v4, e4 = traces.check_recycled(case, tr, "C03/depends_on_earlier_run/" + setup.kind)
+        v.extend(v4)
+        extra += e4
     return core.result("returned", digest=traces.trace_digest(tr), viol=v, states=tr["n"] + extra,
                        transitions=max(tr["n"] - 1, 0) + extra, traces=1 + extra, cross_model=extra,
                        sample={"T": tr["T"][:3], "Q": tr["Q"][:3], "Qc": tr["Qc"][:2]})
